@@ -886,7 +886,7 @@ class Atoms(list):
         for i in range(3, len(self)):
             # Calculate the 0->i atomic vector, which must not have any
             # component in the direction in the normal if the atoms are planar
-            if np.dot(normal_vec, arr[i, :] - x0) > distance_tol_float:
+            if abs(np.dot(normal_vec, arr[i, :] - x0)) > distance_tol_float:
                 return False
 
         return True
